@@ -1,15 +1,59 @@
-(* M1 object layer: one Fingerprinter object across a history of run() calls (fprinter.py:151-183 after the repair
-   "run resets conformer state on every run").
+(* M1 object layer: one Fingerprinter object across a history of run() calls (fprinter.py:151-205, 270-365, 368-446,
+   496-501, after the repair "run resets conformer state on every run").
 
-   What survives from one run() to the next is decided by object identity: `mol is not self.mol` triggers
-   reset_mol + initialize_mol (atoms, bound atoms, connectivity, level-0 identifiers are recomputed from the molecule);
-   otherwise those molecule-level tables are REUSED and only the conformer-level state is reset.  Coordinates are always
-   read afresh for the retained atoms.  A Python object is modelled as an identity token plus the data it holds at the
-   time of the call (the same object may hold different data later: RDKit molecules are mutable). *)
+   The object state is explicit.  Molecule-level: `self.mol` (identity) with the tables initialize_mol derives from it
+   (atoms, bound_atoms_dict, connectivity, init_identifiers: all functions of the molecule data seen at that time).
+   Conformer-level: the dictionary `level_shells` (level -> set of shells; a Python dict, so stale keys are
+   representable), `past_substructs`, and `current_level` (= shells_gen.level, None while shells_gen is None).
+   reset_mol / reset_conf clear exactly what the code clears.  What survives from one run() to the next is decided by
+   object identity: `mol is not self.mol` triggers reset_mol + initialize_mol; otherwise the molecule-level tables are
+   REUSED and only reset_conf runs.  Coordinates are always read afresh for the retained atoms.  A Python object is
+   modelled as an identity token plus the data it holds at the time of the call (the same object may hold different data
+   later: RDKit molecules are mutable).
+
+   The iteration itself (`for i in iter(self): pass`, i.e. __next__ until StopIteration) is Model/E3FP.v's `run`; its
+   effect on the object is the WRITE `self.level_shells[self.current_level] = level_shells` for every level it reaches
+   (0 .. k, overwriting), all other keys of the dictionary being left alone.  __next__ reads `level_shells[l-1]` only
+   after having written it in the same run, so entries left over from an earlier run do not influence the iteration; it
+   reads `past_substructs` from the start, which is why reset_conf must have emptied it (the iteration of Model/E3FP.v
+   starts from the empty set). *)
 From Coq Require Import QArith.
-From E3FP Require Import Base.Prelude Model.Geometry Model.Stereo Model.Fprint Model.E3FP.
+From E3FP Require Import Base.Prelude Base.ZSet Base.Murmur3 Model.Geometry Model.Stereo Model.Fprint Gen.Constants Model.E3FP.
 Open Scope Z_scope.
-Open Scope Z_scope.
+
+(* ---- Python dict with integer keys (insertion-ordered association list, one entry per key) ---- *)
+Section Dict.
+Context {A : Type}.
+
+Fixpoint dget (k : Z) (d : list (Z * A)) : option A :=
+  match d with
+  | [] => None
+  | (k', v) :: t => if k =? k' then Some v else dget k t
+  end.
+
+Definition dmem (k : Z) (d : list (Z * A)) : bool := match dget k d with Some _ => true | None => false end.
+
+(* d[k] = v : overwrite in place, or append a new key *)
+Fixpoint dset (k : Z) (v : A) (d : list (Z * A)) : list (Z * A) :=
+  match d with
+  | [] => [(k, v)]
+  | (k', v') :: t => if k =? k' then (k, v) :: t else (k', v') :: dset k v t
+  end.
+
+(* d[l] = x0; d[l+1] = x1; ... in this order *)
+Fixpoint dset_from (l : Z) (vs : list A) (d : list (Z * A)) : list (Z * A) :=
+  match vs with
+  | [] => d
+  | v :: t => dset_from (l + 1) t (dset l v d)
+  end.
+
+(* {l: x0, l+1: x1, ...} *)
+Fixpoint enum_from (l : Z) (vs : list A) : list (Z * A) :=
+  match vs with
+  | [] => []
+  | v :: t => (l, v) :: enum_from (l + 1) t
+  end.
+End Dict.
 
 Section Fprinter.
 Variable D : ringdict.
@@ -24,28 +68,120 @@ Definition with_positions (base cur : mol D) : mol D :=
 
 Record fprinter := mkfprinter {
   f_opts : opts;
-  f_mol : option (Z * mol D);          (* identity of self.mol and the data initialize_mol saw *)
-  f_last : option (result state) }.    (* outcome of the last run (level_shells etc.) *)
+  (* molecule-level *)
+  f_mol : option Z;                           (* identity of self.mol (None after __init__) *)
+  f_tables : option (mol D);                  (* atoms, bound_atoms_dict, connectivity, init_identifiers: the data
+                                                 initialize_mol saw; None = cleared by reset_mol *)
+  (* conformer-level *)
+  f_level_shells : list (Z * list shell);     (* self.level_shells *)
+  f_past : list (list Z);                     (* self.past_substructs *)
+  f_cur : option Z;                           (* self.current_level (shells_gen.level; None if shells_gen is None) *)
+  (* not object state: the exception the last run() call propagated to its caller, if any *)
+  f_exn : option err }.
 
-Definition new_fprinter (o : opts) : fprinter := mkfprinter o None None.
+(* reset_conf(): level_shells = {}, past_substructs = set(), shells_gen = None (all_shells, atom_coords,
+   identifiers_to_shells are not observed by the queries modelled here) *)
+Definition reset_conf (f : fprinter) : fprinter :=
+  mkfprinter (f_opts f) (f_mol f) (f_tables f) [] [] None (f_exn f).
 
-(* run(conf, mol): `id` is the identity of the molecule object, `m` what it holds now (with the conformer's coordinates) *)
+(* reset_mol(): atoms = None, bound_atoms_dict = connectivity = init_identifiers = {}, then reset_conf().
+   `self.mol` itself is NOT cleared by reset_mol (only __init__ sets it to None); the tables derived from it are. *)
+Definition reset_mol (f : fprinter) : fprinter :=
+  reset_conf (mkfprinter (f_opts f) (f_mol f) None (f_level_shells f) (f_past f) (f_cur f) (f_exn f)).
+
+(* __init__: self.mol = None; self.reset() *)
+Definition new_fprinter (o : opts) : fprinter := mkfprinter o None None [] [] None None.
+
+(* initialize_mol(mol): self.mol = mol and the molecule-level tables computed from what the object holds now *)
+Definition initialize_mol (f : fprinter) (id : Z) (m : mol D) : fprinter :=
+  mkfprinter (f_opts f) (Some id) (Some m) (f_level_shells f) (f_past f) (f_cur f) (f_exn f).
+
+(* `mol is self.mol` *)
+Definition same_mol (f : fprinter) (id : Z) : bool :=
+  match f_mol f with Some id' => id =? id' | None => false end.
+
+
+(* the writes `self.level_shells[l] = ...` of one iteration, l = 0 .. k in this order (st_shells is newest first) *)
+Definition store (st : state) (d : list (Z * list shell)) : list (Z * list shell) :=
+  dset_from 0 (rev (st_shells st)) d.
+
+(* initialize_conformer(conf) and `for i in iter(self): pass` on an object whose resets have been done.
+   If anything raises (initialize_mol: bond type outside the table; initialize_conformer: no atom retained), it does so
+   before the first __next__ completes: the conformer-level state stays as the resets left it.
+   The iteration sees the cached molecule-level tables with the coordinates of the conformer passed now
+   (atoms = None: coords_from_atoms raises TypeError; not reachable through `frun`). *)
+Definition set_exn (f : fprinter) (e : err) : fprinter :=
+  mkfprinter (f_opts f) (f_mol f) (f_tables f) (f_level_shells f) (f_past f) (f_cur f) (Some e).
+
+Definition iterate_conf (f : fprinter) (m : mol D) : fprinter :=
+  match f_tables f with
+  | None => set_exn f EType
+  | Some base =>
+    match run D C fuel (f_opts f) (with_positions base m) with
+    | Ok st => mkfprinter (f_opts f) (f_mol f) (f_tables f) (store st (f_level_shells f)) (st_past st) (Some (st_k st)) None
+    | Raises e => set_exn f e
+    end
+  end.
+
+(* run(conf, mol): `id` is the identity of the molecule object, `m` what it holds now (with the conformer's coordinates)
+     if mol is not self.mol: self.reset_mol(); self.initialize_mol(mol)
+     else: self.reset_conf()
+     self.initialize_conformer(conf); for i in iter(self): pass *)
 Definition frun (f : fprinter) (id : Z) (m : mol D) : fprinter :=
-  let base := match f_mol f with
-              | Some (id', m') => if id =? id' then m' else m
-              | None => m
-              end in
-  mkfprinter (f_opts f) (Some (id, base)) (Some (run D C fuel (f_opts f) (with_positions base m))).
+  let f1 := if same_mol f id then reset_conf f else initialize_mol (reset_mol f) id m in
+  iterate_conf f1 m.
 
 Definition frun_all (f : fprinter) (h : list (Z * mol D)) : fprinter :=
   fold_left (fun f x => frun f (fst x) (snd x)) h f.
 
-(* get_fingerprint_at_level on the object: reads f_last, writes nothing *)
+(* ---- SEEDED-BUG VARIANT, used only in the refutation `stale_levels_without_reset` (Proofs/FprinterHistory.v) ----
+   `self.level_shells = {}` moved from reset_conf() to reset_mol(): a new molecule object still clears the dictionary,
+   another conformer of the same molecule object does not. *)
+Definition reset_conf_noreset (f : fprinter) : fprinter :=
+  mkfprinter (f_opts f) (f_mol f) (f_tables f) (f_level_shells f) [] None (f_exn f).
+Definition reset_mol_noreset (f : fprinter) : fprinter :=
+  reset_conf_noreset (mkfprinter (f_opts f) (f_mol f) None [] (f_past f) (f_cur f) (f_exn f)).
+Definition frun_noreset (f : fprinter) (id : Z) (m : mol D) : fprinter :=
+  let f1 := if same_mol f id then reset_conf_noreset f else initialize_mol (reset_mol_noreset f) id m in
+  iterate_conf f1 m.
+(* ---- end of the seeded-bug variant ---- *)
+
+(* get_shells_at_level(level, exact=False) before the atom mask:
+     if level in (-1, None) or level not in self.level_shells:
+         if len(self.level_shells) == 0: raise IndexError
+         true_level = self.current_level
+     else: true_level = level
+     shells = self.level_shells[true_level]          (KeyError if absent) *)
+Definition fshells (f : fprinter) (req : option Z) : result (list shell) :=
+  let d := f_level_shells f in
+  let lookup (t : Z) := match dget t d with Some s => Ok s | None => Raises EKey end in
+  let via_current :=
+    match d with
+    | [] => Raises EIndex
+    | _ :: _ => match f_cur f with Some c => lookup c | None => Raises EKey end
+    end in
+  match req with
+  | None => via_current
+  | Some l => if (l =? -1) || negb (dmem l d) then via_current else lookup l
+  end.
+
+(* get_fingerprint_at_level(level, bits, atom_mask) on the object: reads the dictionary, writes nothing; the label of
+   the fingerprint is the request itself *)
 Definition fquery (f : fprinter) (counts : bool) (bits : Z) (req : option Z) (mask : list Z) : result fp :=
-  match f_last f with
-  | Some (Ok st) => fingerprint_query (f_opts f) counts bits st req mask
-  | Some (Raises e) => Raises e
-  | None => Raises EIndex
+  rbind (fshells f req) (fun shells =>
+    let ids := map (fun s => unsigned32 (s_ident s)) (filter (fun s => disjointb (s_sub s) mask) shells) in
+    rbind (if counts then mk_count_from_indices KCount ids fprinter_bits req None
+           else mk_bit ids fprinter_bits req None)
+          (fun x => fp_fold x bits 0)).
+
+(* the conformer-level state together with the outcome of the call, and what a fresh object shows after one run *)
+Definition conf_state (f : fprinter) : list (Z * list shell) * list (list Z) * option Z * option err :=
+  (f_level_shells f, f_past f, f_cur f, f_exn f).
+
+Definition fresh_state (r : result state) : list (Z * list shell) * list (list Z) * option Z * option err :=
+  match r with
+  | Ok st => (store st [], st_past st, Some (st_k st), None)
+  | Raises e => ([], [], None, Some e)
   end.
 
 (* same molecule-level data (everything but coordinates and the length unit) *)
